@@ -66,6 +66,8 @@ type (
 	Query struct {
 		data Map
 		from []any
+		// rows of from that passed WHERE; aggregates without GROUP BY read these
+		filtered []any
 		//processed           []any
 		distinct            bool
 		selectDefinition    SelectDefinition
@@ -1546,7 +1548,7 @@ func AggrFunExpr(query *Query, current Map, expr sqlparser.AggrFunc, opts ...Exp
 	}
 	rs, ok := query.singletonExecutions[name]
 	if !ok {
-		slice, err := AggrFuncArgReader(query, map[string]any{"*": query.from}, sqlparser.Exprs{Exprs: expr.GetArgs()})
+		slice, err := AggrFuncArgReader(query, map[string]any{"*": query.rows()}, sqlparser.Exprs{Exprs: expr.GetArgs()})
 		if err != nil {
 			return nil, err
 		}
@@ -1819,6 +1821,7 @@ func (query *Query) exec() (result any, err error) {
 			}
 		}
 	}
+	query.filtered = slice
 	rs, err := ExecGroupBy(query, slice)
 	if err != nil {
 		return nil, err
@@ -1883,6 +1886,15 @@ func (query *Query) Exec() (result []any, err error) {
 		return slice, nil
 	}
 	return []any{rs}, nil
+}
+
+// rows returns the rows that aggregates without GROUP BY operate on: the rows
+// that passed WHERE once the filter has run, the whole source before that
+func (query *Query) rows() []any {
+	if query.filtered != nil {
+		return query.filtered
+	}
+	return query.from
 }
 
 func (query *Query) IsDual() bool {
